@@ -41,6 +41,7 @@ type fOp struct {
 	Resps        map[string]string // code -> schema name ("" = none)
 }
 type fDoc struct {
+	PathLevel bool // path parameters declared once per path, not per operation
 	Format  string
 	Schemas []fSchema
 	Ops     []fOp
@@ -175,6 +176,23 @@ func renderOpenAPI(d *fDoc, v3 bool) {
 	}
 	for _, p := range paths {
 		fmt.Fprintf(&b, "  %s:\n", p)
+		pathLevel := false
+		if d.PathLevel && !v3 {
+			for _, pr := range byPath[p][0].Params {
+				if pr.In == "path" {
+					if !pathLevel {
+						b.WriteString("    parameters:\n")
+					}
+					pathLevel = true
+					t, f, _ := c11Kind(pr.Kind)
+					ty := "type: " + t
+					if f != "" {
+						ty += ", format: " + f
+					}
+					fmt.Fprintf(&b, "      - {name: %s, in: path, required: true, %s}\n", pr.Name, ty)
+				}
+			}
+		}
 		for _, o := range byPath[p] {
 			fmt.Fprintf(&b, "    %s:\n", o.Method)
 			var body *fParam
@@ -182,13 +200,16 @@ func renderOpenAPI(d *fDoc, v3 bool) {
 			for i := range o.Params {
 				if o.Params[i].In == "body" {
 					body = &o.Params[i]
-				} else {
+				} else if !(pathLevel && o.Params[i].In == "path") {
 					nonBody++
 				}
 			}
 			if nonBody > 0 || (body != nil && !v3) {
 				b.WriteString("      parameters:\n")
 				for _, pr := range o.Params {
+					if pathLevel && pr.In == "path" {
+						continue
+					}
 					if pr.In == "body" {
 						if !v3 {
 							fmt.Fprintf(&b, "        - {name: %s, in: body, schema: {$ref: %s}}\n", pr.Name, yq(refPrefix+pr.Ref))
@@ -334,6 +355,7 @@ func genFDoc(r *Rand, format string) *fDoc {
 	case "openapi2", "openapi3":
 		d.Schemas = genSchemas(r, false)
 		d.Ops = genOps(r, d.Schemas)
+		d.PathLevel = r.Bool()
 		d.File = "spec.yaml"
 		renderOpenAPI(d, format == "openapi3")
 	case "xsd":
